@@ -726,4 +726,186 @@ theorem startSelecting_pageInv {e e' : Editor D L} {okk : Bool}
   · cases h
   · cases h
 
+
+
+/-! ### a freshly initialised phrase selector -/
+
+/-- what the shrinking loop of `PhraseSelector::init` returns: a non-empty range inside the buffer
+    for which the dictionary has a phrase; nothing but `begin` / `end` is touched -/
+theorem initLoop_ok (d : D) : ∀ (fuel : Nat) (s s' : PhraseSel), PhraseSel.initLoop env s d fuel = .ok s' →
+    s'.begin_ < s'.end_ ∧ s'.end_ ≤ s'.com.len ∧ s'.com = s.com ∧ s'.strategy = s.strategy ∧
+    s'.forward = s.forward ∧ s'.orig = s.orig ∧
+    PhraseSel.rangeHasPhrase env s' d s'.begin_ s'.end_ = .ok true := by
+  intro fuel
+  induction fuel with
+  | zero => intro s s' h; simp [PhraseSel.initLoop] at h
+  | succ fuel ih =>
+    intro s s' h
+    unfold PhraseSel.initLoop at h
+    split at h
+    · cases h
+    · split at h
+      · cases h
+      · split at h
+        · cases h
+        · rename_i h1 h2 h3
+          split at h
+          · rename_i hp
+            injection h with h; subst h
+            refine ⟨?_, by omega, rfl, rfl, rfl, rfl, hp⟩
+            have : s.begin_ ≠ s.end_ := by simpa using h3
+            omega
+          · split at h
+            · obtain ⟨a, b, c, d', e, f, g⟩ := ih _ _ h
+              exact ⟨a, b, c, d', e, f, g⟩
+            · obtain ⟨a, b, c, d', e, f, g⟩ := ih _ _ h
+              exact ⟨a, b, c, d', e, f, g⟩
+          · cases h
+          · cases h
+
+/-- a range for which the dictionary has a phrase lists at least one candidate -/
+theorem candidates_nonempty {p : PhraseSel} {d : D} {l : L} {cs : List Text}
+    (hp : PhraseSel.rangeHasPhrase env p d p.begin_ p.end_ = .ok true)
+    (hc : PhraseSel.candidates env p d l = .ok cs) : cs ≠ [] := by
+  unfold PhraseSel.rangeHasPhrase at hp
+  unfold PhraseSel.candidates at hc
+  split at hp
+  · rename_i syms hs
+    rw [hs] at hc
+    injection hp with hp
+    unfold Env.hasPhrase at hp
+    have hne : env.lookupAll d (sylPrefix syms) p.strategy ≠ [] := by
+      intro h0; rw [h0] at hp; simp at hp
+    have hbase : (env.lookupAll d (sylPrefix syms) p.strategy).map (·.text) ≠ [] := by
+      intro h0; exact hne (List.map_eq_nil_iff.mp h0)
+    simp only at hc
+    split at hc
+    · split at hc
+      · injection hc with hc; subst hc
+        intro h0; exact hbase (List.append_eq_nil_iff.mp h0).1
+      · cases hc
+      · cases hc
+    · injection hc with hc; subst hc; exact hbase
+  · cases hp
+  · cases hp
+
+theorem init_ok {fw : Bool} {st : Strategy} {com : Composition} {cur : Nat} {d : D} {p : PhraseSel}
+    (h : PhraseSel.init env fw st com cur d = .ok p) :
+    p.begin_ < p.end_ ∧ p.end_ ≤ p.com.len ∧ p.com = com ∧
+    PhraseSel.rangeHasPhrase env p d p.begin_ p.end_ = .ok true := by
+  unfold PhraseSel.init at h
+  simp only at h
+  split at h
+  · split at h
+    · cases h
+    · obtain ⟨a, b, c, _, _, _, g⟩ := initLoop_ok env d _ _ _ h
+      exact ⟨a, b, c, g⟩
+  · obtain ⟨a, b, c, _, _, _, g⟩ := initLoop_ok env d _ _ _ h
+    exact ⟨a, b, c, g⟩
+
+/-- **a phrase list opened by Down / Space / `start_selecting` is on page 0 and not empty**, so its
+    page index is *strictly* below the page count -/
+theorem newPhrase_nonempty {sh sh' : Shared D L} {s : Selecting} {cs : List Text}
+    (h : newPhrase env sh = .ok (sh', .toState (.selecting s)))
+    (hc : Selecting.candidates env s sh' = .ok cs) :
+    s.pageNo = 0 ∧ cs ≠ [] ∧ ∃ p, s.sel = .phrase p ∧ p.begin_ < p.end_ ∧ p.end_ ≤ p.com.len := by
+  unfold newPhrase at h
+  simp only at h
+  split at h
+  · rename_i sel hinit
+    injection h with h; injection h with h1 h2
+    injection h2 with h2; injection h2 with h2
+    subst h2; subst h1
+    obtain ⟨a, b, _, g⟩ := init_ok env hinit
+    refine ⟨rfl, ?_, sel, rfl, a, b⟩
+    unfold Selecting.candidates at hc
+    simp only at hc
+    exact candidates_nonempty env g hc
+  · cases h
+  · cases h
+
+
+
+/-- insert at / replace the symbol under the cursor, restore the saved cursor, close the list -/
+def placeSymbol (s : Selecting) (sh : Shared D L) (sym : Sym) : Outcome (Selecting × Shared D L × Trans) :=
+  match (match s.action with
+         | .insert => sh.com.insert sym
+         | .replace => sh.com.replace sym) with
+  | .ok com => .ok (s, { sh with com := com.popCursor }, .toState .entering)
+  | .panic p => .panic p
+  | .outOfFuel => .outOfFuel
+
+/-- **special-symbol list**: choosing an index in range places exactly the listed character -/
+theorem choose_special {s : Selecting} {sh : Shared D L} {sym0 : Sym} {cs : List Text} {n : Nat}
+    (hsel : s.sel = .special sym0) (hm : specialMenu sym0 = .ok cs)
+    (hin : Selecting.offset s sh n < cs.length) :
+    ∃ ch, cs[Selecting.offset s sh n]? = some [ch] ∧
+      Selecting.select env s sh n = placeSymbol s sh (.chr ch) := by
+  unfold specialMenu at hm
+  split at hm
+  · rename_i row hrow
+    injection hm with hm; subst hm
+    rw [List.length_map] at hin
+    refine ⟨(row.drop 1)[Selecting.offset s sh n], ?_, ?_⟩
+    · rw [List.getElem?_map, List.getElem?_eq_getElem hin]; rfl
+    · unfold Selecting.select placeSymbol
+      simp only [Selecting.candidates, hsel, specialMenu, specialSelect, hrow, List.length_map]
+      rw [if_neg (by omega), List.getElem?_eq_getElem hin]
+      simp only [Option.map]
+      first | rfl | (cases s.action <;> rfl)
+  · injection hm with hm; subst hm; simp at hin
+  · cases hm
+  · cases hm
+
+/-- **symbol table, inside a category**: choosing an index in range places exactly the listed
+    character (and the selector is back at the top level) -/
+theorem choose_symbol_leaf {s : Selecting} {sh : Shared D L} {y : SymSel} {c : Nat} {row : Text} {n : Nat}
+    (hsel : s.sel = .symbol y) (hcur : y.cursor = some c) (hrow : y.table[c]? = some row)
+    (hin : Selecting.offset s sh n < row.length) :
+    Selecting.candidates env s sh = .ok (row.map fun ch => [ch]) ∧
+    Selecting.select env s sh n =
+      (placeSymbol s sh (.chr row[Selecting.offset s sh n])).map
+        fun (_, sh', t) => ({ s with sel := .symbol { y with cursor := none } }, sh', t) := by
+  have hmenu : y.menu = .ok (row.map fun ch => [ch]) := by unfold SymSel.menu; simp only [hcur, hrow]
+  refine ⟨by unfold Selecting.candidates; simp only [hsel, hmenu], ?_⟩
+  unfold Selecting.select placeSymbol
+  simp only [Selecting.candidates, hsel, hmenu, List.length_map, SymSel.select, hcur, hrow]
+  rw [if_neg (by omega), List.getElem?_eq_getElem hin]
+  simp only [Option.map, Outcome.map]
+  first | rfl | (cases s.action <;> rfl)
+
+/-- **symbol table, top level, a category with a sub-table**: the list stays open, shows that
+    sub-table from page 0, and the buffer is untouched -/
+theorem choose_symbol_descend {s : Selecting} {sh : Shared D L} {y : SymSel} {n : Nat} {name : Text} {idx : Nat}
+    (hsel : s.sel = .symbol y) (hcur : y.cursor = none)
+    (hcat : y.category[Selecting.offset s sh n]? = some (name, some idx)) :
+    Selecting.select env s sh n =
+      .ok ({ s with sel := .symbol { y with cursor := some (idx % 256) }, pageNo := 0 }, sh, .spin .absorb) := by
+  have hmenu : y.menu = .ok (y.category.map (·.1)) := by unfold SymSel.menu; simp only [hcur]
+  have hin : Selecting.offset s sh n < y.category.length := by
+    rcases Nat.lt_or_ge (Selecting.offset s sh n) y.category.length with h | h
+    · exact h
+    · rw [List.getElem?_eq_none h] at hcat; cases hcat
+  unfold Selecting.select
+  simp only [Selecting.candidates, hsel, hmenu, List.length_map, SymSel.select, hcur, hcat]
+  rw [if_neg (by omega)]
+
+/-- **symbol table, top level, a plain entry**: its first character is placed -/
+theorem choose_symbol_plain {s : Selecting} {sh : Shared D L} {y : SymSel} {n : Nat} {name : Text} {ch : Nat}
+    (hsel : s.sel = .symbol y) (hcur : y.cursor = none)
+    (hcat : y.category[Selecting.offset s sh n]? = some (name, none)) (hch : name.head? = some ch) :
+    Selecting.select env s sh n =
+      (placeSymbol s sh (.chr ch)).map fun (_, sh', t) => ({ s with sel := .symbol { y with cursor := none } }, sh', t) := by
+  have hmenu : y.menu = .ok (y.category.map (·.1)) := by unfold SymSel.menu; simp only [hcur]
+  have hin : Selecting.offset s sh n < y.category.length := by
+    rcases Nat.lt_or_ge (Selecting.offset s sh n) y.category.length with h | h
+    · exact h
+    · rw [List.getElem?_eq_none h] at hcat; cases hcat
+  unfold Selecting.select placeSymbol
+  simp only [Selecting.candidates, hsel, hmenu, List.length_map, SymSel.select, hcur, hcat, hch]
+  rw [if_neg (by omega)]
+  simp only [Outcome.map]
+  first | rfl | (cases s.action <;> rfl)
+
+
 end Chewing
